@@ -619,7 +619,13 @@ func TestPropParkedDispatch(t *testing.T) {
 		// what it had loaded (state before all changes) for the levels it had already read and with the final state
 		// for everything it reads afterwards - a combination that never existed as a complete table.  The exact
 		// combination for this park point:
-		mixed, mixedID, mixedIgnore := mixedModel(states[0].m, states[0].id, ma, ida, point)
+		var stM []*ref.Model
+		var stID []ids
+		for _, st := range states {
+			stM = append(stM, st.m)
+			stID = append(stID, st.id)
+		}
+		mixed, mixedID, mixedIgnore := mixedModel(stM, stID, point)
 		wantMixed := expected(mixed, mixedID)
 		eqMixed := func(g deliveries) bool {
 			saved := ignore
@@ -636,9 +642,25 @@ func TestPropParkedDispatch(t *testing.T) {
 			return r
 		}
 		_, crossKnown := ev.IsKnown("C18", "cross-level-snapshot")
+		// An aggregation counts a point when its own goroutine takes it from its (buffered) inbox.  settleAggs makes every
+		// live aggregation serve 20 Snapshot requests: each forces one more turn of that goroutine's select while the
+		// pending point is ready too, so afterwards the point has been taken except with probability 2^-20.  Without
+		// it an observation can match a smaller admissible outcome too early and the late count leaks into the next phase.
+		settleAggs := func() {
+			for k, a := range aggObjs {
+				if deletedAggs[k] {
+					continue
+				}
+				for i := 0; i < 20; i++ {
+					a.Snapshot()
+				}
+			}
+		}
+		settleAggs()
 		got := observe(c0)
 		for dl := time.Now().Add(3 * time.Second); !okAny(got) && !(crossKnown && eqMixed(got)) && time.Now().Before(dl); {
 			time.Sleep(200 * time.Microsecond)
+			settleAggs()
 			got = observe(c0)
 		}
 		if !okAny(got) && crossKnown && len(ops) >= 2 && eqMixed(got) {
@@ -660,10 +682,12 @@ func TestPropParkedDispatch(t *testing.T) {
 		for k, d := range destObjs {
 			destBase[k] = h.DestDropNoConn(d.Key)
 		}
+		settleAggs()
 		for k, a := range aggObjs {
 			aggBase[k] = h.Count("unit=Metric.direction=in.aggregator=" + a.Key)
 		}
 		b.Tab.Dispatch([]byte(line))
+		settleAggs()
 		drained = map[*dest.Destination]*int64{}
 		wa := expected(ma, ida)
 		got2 := observe(c0)
@@ -692,9 +716,12 @@ func TestPropParkedDispatch(t *testing.T) {
 	})
 }
 
-// mixedModel: table-level lists as loaded before the window (t0); each route's own configuration from t0 if the
-// dispatcher had already read it when it parked, from the final state (tk) otherwise.
-func mixedModel(t0 *ref.Model, id0 ids, tk *ref.Model, idk ids, point string) (*ref.Model, ids, map[string]bool) {
+// mixedModel: table-level lists as loaded before the window (first state); each route's own configuration from the
+// first state if the dispatcher had already read it when it parked, otherwise as the route OBJECT has it at the end of
+// the window, i.e. from the last state in which that route still exists (a route deleted later in the window is
+// still called through the old route list, with whatever configuration it had when it was deleted).
+func mixedModel(ms []*ref.Model, idl []ids, point string) (*ref.Model, ids, map[string]bool) {
+	t0, id0 := ms[0], idl[0]
 	m := &ref.Model{}
 	m.Blacklist = append(m.Blacklist, t0.Blacklist...)
 	m.Rewriters = append(m.Rewriters, t0.Rewriters...)
@@ -711,19 +738,25 @@ func mixedModel(t0 *ref.Model, id0 ids, tk *ref.Model, idk ids, point string) (*
 			pos = p
 		}
 	}
-	kIndex := func(key string) int {
-		for i, r := range tk.Routes {
-			if r.Key == key {
-				return i
+	// the route as of the last state that still has it
+	lastRoute := func(key string) (ref.RouteModel, []string) {
+		for s := len(ms) - 1; s >= 0; s-- {
+			for i, r := range ms[s].Routes {
+				if r.Key == key {
+					return r, idl[s].dests[i]
+				}
 			}
 		}
-		return -1
+		panic("HARNESS-ERROR: route " + key + " in no state")
 	}
-	destFilterK := func(destID string) (gen.Filter, bool) {
-		for ri, ds := range idk.dests {
-			for j, d := range ds {
-				if d == destID {
-					return tk.Routes[ri].Dests[j].Filter, true
+	// a destination's filter as of the last state that still has it
+	lastDestFilter := func(destID string) (gen.Filter, bool) {
+		for s := len(ms) - 1; s >= 0; s-- {
+			for ri, ds := range idl[s].dests {
+				for j, d := range ds {
+					if d == destID {
+						return ms[s].Routes[ri].Dests[j].Filter, true
+					}
 				}
 			}
 		}
@@ -735,33 +768,22 @@ func mixedModel(t0 *ref.Model, id0 ids, tk *ref.Model, idk ids, point string) (*
 			m.Routes = append(m.Routes, r)
 			id.routes = append(id.routes, id0.routes[p])
 			id.dests = append(id.dests, id0.dests[p])
-		case p == pos: // parked right after this carbon route loaded its destination list
+		case p == pos: // parked right after this carbon route loaded its configuration (filter, destination list, ring)
 			rr := r
 			rr.Dests = append([]ref.DestModel(nil), r.Dests...)
 			for j := range rr.Dests {
-				if f, ok := destFilterK(id0.dests[p][j]); ok {
-					rr.Dests[j].Filter = f
-				} else {
-					ignore["dest:"+id0.dests[p][j]] = true
+				if f, ok := lastDestFilter(id0.dests[p][j]); ok {
+					rr.Dests[j].Filter = f // (a destination's own filter is read when the destination is asked)
 				}
 			}
 			m.Routes = append(m.Routes, rr)
 			id.routes = append(id.routes, id0.routes[p])
 			id.dests = append(id.dests, id0.dests[p])
 		default:
-			if k := kIndex(r.Key); k >= 0 {
-				m.Routes = append(m.Routes, tk.Routes[k])
-				id.routes = append(id.routes, idk.routes[k])
-				id.dests = append(id.dests, idk.dests[k])
-			} else { // deleted in the window: the dispatcher still calls it; what it does then is not observable reliably
-				m.Routes = append(m.Routes, r)
-				id.routes = append(id.routes, id0.routes[p])
-				id.dests = append(id.dests, id0.dests[p])
-				ignore["route:"+r.Key] = true
-				for _, d := range id0.dests[p] {
-					ignore["dest:"+d] = true
-				}
-			}
+			lr, ld := lastRoute(r.Key)
+			m.Routes = append(m.Routes, lr)
+			id.routes = append(id.routes, id0.routes[p])
+			id.dests = append(id.dests, ld)
 		}
 	}
 	return m, id, ignore
